@@ -105,8 +105,10 @@ def run_case(case, ctx):
         # the ordered one, the permuted histories are not
         j_ = int(rng.integers(0, batches[0].shape[1]))
         batches = [b[np.argsort(b[:, j_], kind="stable")] for b in batches]
-        if rng.random() < 0.5:
-            batches = [np.round(b * 4) / 4 for b in batches]  # ties along the ordered feature
+        if rng.random() < 0.5 and name != "NNDVI":
+            # ties along the ordered feature (a quarter of the data's own scale; NN-DVI needs more distinct points than neighbours)
+            sc_ = float(np.std(np.vstack(batches))) or 1.0
+            batches = [np.round(b / sc_ * 4) / 4 * sc_ for b in batches]
         ctx.count("histories_ordered_by_a_feature")
     labels = None
     if as_frames:
